@@ -126,6 +126,13 @@ def run(ctx, rep):
             seen.setdefault(key, []).append((loc, what))
     for key, items in sorted(seen.items()):
         a = allow.get(key)
+        if a is None:
+            # the same deliberate discard spelled differently: `match r { Ok(..) => .., Err(_) => fallback }` vs `r.ok()` / `if let Ok`
+            for alt in ("err-arm-ignores-error", "swallowed:ok", "swallowed:unwrap_or_default", "swallowed:is_ok", "swallowed:is_err"):
+                k2 = key.rsplit("|", 1)[0] + "|" + alt
+                if k2 != key and k2 in allow and k2 not in seen:
+                    a = allow[k2]
+                    break
         if a is not None and len(items) <= a["n"]:
             for loc, what in items:
                 rep.ok("C13.drop", "allowed:" + key, loc, a["why"])
